@@ -123,6 +123,9 @@ func (fip *FloatingIPPool) UnmarshalJSON(data []byte) error {
 	} else {
 		m := map[string]string{}
 		for i := range conf.NodeSubnets {
+			if conf.NodeSubnets[i] == nil {
+				return fmt.Errorf("node subnet is null")
+			}
 			ipNet := conf.NodeSubnets[i].ToIPNet()
 			ipNet.IP = ipNet.IP.Mask(ipNet.Mask)
 			if _, ok := m[ipNet.String()]; !ok {
